@@ -14,6 +14,7 @@
     clippy::await_holding_refcell_ref
 )]
 #![cfg_attr(test, allow(clippy::unwrap_used))]
+#![cfg_attr(mainline_verif, allow(missing_docs, private_interfaces))]
 
 /// Single threaded Actor model node
 mod actor;
